@@ -13,7 +13,7 @@ PROP = "C11"
 LEVEL = "exploration"
 MIN_VARIANTS = 1
 TIERS = {
-    "quick": {"cases": 700, "budget_s": 80, "batch": 64},
+    "quick": {"cases": 1000, "budget_s": 150, "batch": 64},
     "thorough": {"cases": 8000, "budget_s": 900, "batch": 64},
 }
 RULE = (
